@@ -63,6 +63,7 @@ class Fn:
         self.c_raises = kw.pop("c_raises", {})
         self.monitor = kw.pop("monitor", None)       # dict(havoc=[locations], inv=[clauses], locks=[texts], calls=[callee texts]): interference model
         self.ghost_after = kw.pop("ghost_after", {}) # source text of a statement -> ghost statements executed right after it
+        self.ghost_call = kw.pop("ghost_call", {})   # callee text -> ghost statements executed atomically with the callee's effect (`_r` = result)
         self.s_ensures = kw.pop("s_ensures", [])     # clauses checked only symbolically (three-state clauses using after(...))
         self.abstract = kw.pop("abstract", False)    # contract only (callee not verified: listed as assumption)
         self.params = kw.pop("params", None)         # for abstract contracts: parameter names
